@@ -173,3 +173,14 @@ Proof.
       inversion Heq. lra. }
   repeat split; try lra; assumption.
 Qed.
+
+(* an accepted update passed the extra (margin) rule, evaluated on the old and the new account *)
+Lemma acct_update_extra extra a db dh dbo a' :
+  acct_update extra a db dh dbo = Ok a' -> extra a a' = None.
+Proof.
+  unfold acct_update. intros H.
+  destruct (nonzero_rule _); [discriminate|].
+  destruct (validhold_rule _); [discriminate|].
+  destruct (extra a _) eqn:E; [discriminate|].
+  inversion H; subst a'. exact E.
+Qed.
